@@ -29,9 +29,11 @@ def two_body(M, m1, m2, n, rng, ct=None, ph=None):
     return p1, p2
 
 
-def boost_from_rest(p: np.ndarray, ref: np.ndarray) -> np.ndarray:
-    """Boost p (given in the rest frame of ref) into the frame where ref has momentum ref."""
-    m = np.sqrt(np.maximum(mass2(ref), 1e-300))
+def boost_from_rest(p: np.ndarray, ref: np.ndarray, mref=None) -> np.ndarray:
+    """Boost p (given in the rest frame of ref) into the frame where ref has momentum ref.
+
+    ``mref``: the known mass of ref (avoids the E^2-p^2 cancellation for highly boosted systems)."""
+    m = np.sqrt(np.maximum(mass2(ref), 1e-300)) if mref is None else np.asarray(mref, dtype=float)
     b = ref[:, 1:] / ref[:, [0]]
     g = ref[:, 0] / m
     bp = np.sum(b * p[:, 1:], 1)
@@ -42,9 +44,9 @@ def boost_from_rest(p: np.ndarray, ref: np.ndarray) -> np.ndarray:
     return np.concatenate([E[:, None], v], 1)
 
 
-def boost_to_rest(q: np.ndarray, ref: np.ndarray) -> np.ndarray:
+def boost_to_rest(q: np.ndarray, ref: np.ndarray, mref=None) -> np.ndarray:
     """Boost q into the rest frame of ref (pure boost, vector formula)."""
-    m = np.sqrt(np.maximum(mass2(ref), 1e-300))
+    m = np.sqrt(np.maximum(mass2(ref), 1e-300)) if mref is None else np.asarray(mref, dtype=float)
     b = ref[:, 1:] / ref[:, [0]]
     g = ref[:, 0] / m
     bp = np.sum(b * q[:, 1:], 1)
@@ -86,6 +88,7 @@ def gen_events(M: float, masses, n: int, rng, ids=None, stratum: str = "flat") -
             else:
                 u = rng.uniform(0.01, 0.99, n)
             mX = lo + u * (hi - lo)
+            mX = np.maximum(mX, 1e-6 * float(M))  # a sub-system of massless particles is never exactly light-like
         ct = ph = None
         if stratum == "planar":
             ph = np.zeros(n)
@@ -99,8 +102,8 @@ def gen_events(M: float, masses, n: int, rng, ids=None, stratum: str = "flat") -
                 ct = np.zeros(n)
                 ph = np.full(n, 0.0 if ax == 0 else np.pi / 2)
         p1, p2 = two_body(Mcur, masses[i], mX, n, rng, ct, ph)
-        out[ids[i]] = boost_from_rest(p1, parent)
-        parent = boost_from_rest(p2, parent)
+        out[ids[i]] = boost_from_rest(p1, parent, Mcur)
+        parent = boost_from_rest(p2, parent, Mcur)
         Mcur = mX
     out[ids[order[-1]]] = parent
     return out
